@@ -19,6 +19,7 @@ from vsc.model.expr_array_subscript_model import ExprArraySubscriptModel
 from vsc.model.expr_bin_model import ExprBinModel
 from vsc.model.expr_cond_model import ExprCondModel
 from vsc.model.expr_in_model import ExprInModel
+from vsc.model.expr_indexed_dynref_model import ExprIndexedDynRefModel
 from vsc.model.expr_partselect_model import ExprPartselectModel
 from vsc.model.expr_range_model import ExprRangeModel
 from vsc.model.expr_rangelist_model import ExprRangelistModel
@@ -259,6 +260,24 @@ class ConstraintCopyBuilder(ModelVisitor):
         else:
             super().visit_expr_unary(e)
         
+    def visit_constraint_dynref(self, c):
+        if self.do_copy_level > 0:
+            # A reference to a dynamic constraint is a term of the 
+            # expression: keep the reference, don't copy the block
+            self._expr = c
+        else:
+            super().visit_constraint_dynref(c)
+            
+    def visit_expr_indexed_dynref(self, e):
+        if self.do_copy_level > 0:
+            # Copy the path (a list subscript is expanded for each 
+            # iteration of a foreach); the block is found through it
+            self._expr = ExprIndexedDynRefModel(
+                self.expr(e.root),
+                e.idx)
+        else:
+            super().visit_expr_indexed_dynref(e)
+            
     def visit_expr_partselect(self, e):
         if self.do_copy_level > 0:
             self._expr = ExprPartselectModel(
